@@ -33,6 +33,56 @@ type Producer struct {
 	// WhenArmed: the fault is active only while Built.Armed is true (the harness arms it around
 	// exactly one render).
 	WhenArmed bool `json:"when_armed,omitempty"`
+	// AtSeek (read-seeker sources only): all bytes are delivered, the fault is the rewind that fails
+	// (a pipe, a stale handle). FailAfter is ignored.
+	AtSeek bool `json:"at_seek,omitempty"`
+	// Err selects the error value: "" = ErrInjected, eof = io.EOF, wrapped-eof = an error wrapping io.EOF
+	// (what io.CopyN over a short source reports), unexpected-eof, closed-pipe.
+	Err string `json:"err,omitempty"`
+}
+
+func (p Producer) err() error {
+	switch p.Err {
+	case "eof":
+		return io.EOF
+	case "wrapped-eof":
+		return fmt.Errorf("verif: short source: %w", io.EOF)
+	case "unexpected-eof":
+		return io.ErrUnexpectedEOF
+	case "closed-pipe":
+		return io.ErrClosedPipe
+	}
+	return ErrInjected
+}
+
+// FaultFlavour varies a producer fault that a generator has just placed on leaf idx (parts first,
+// then embeds, then attachments): the error value, and for files one time in three the fault moves
+// into the caller's io.ReadSeeker behind the library's own AttachReadSeeker/EmbedReadSeeker producer
+// (there also as a failing rewind).
+func FaultFlavour(t *rapid.T, s *MsgSpec, idx int, allowAtSeek bool) {
+	var p *Producer
+	var f *FileSpec
+	switch {
+	case idx < len(s.Parts):
+		p = &s.Parts[idx].Prod
+	case idx < len(s.Parts)+len(s.Embeds):
+		f = &s.Embeds[idx-len(s.Parts)]
+		p = &f.Prod
+	default:
+		f = &s.Attachments[idx-len(s.Parts)-len(s.Embeds)]
+		p = &f.Prod
+	}
+	p.Err = rapid.SampledFrom([]string{"", "", "", "eof", "wrapped-eof", "unexpected-eof", "closed-pipe"}).Draw(t, "faulterr")
+	if f != nil && rapid.IntRange(0, 2).Draw(t, "faultinreadseeker") == 0 {
+		f.Source = "readseeker"
+		// a source whose rewind failed stays broken, so this flavour is only for checks that do not
+		// expect later renders of the same message to succeed
+		p.AtSeek = allowAtSeek && rapid.IntRange(0, 3).Draw(t, "faultatseek") == 0
+	}
+	if f != nil && f.Source == "readseeker" && p.Err == "eof" {
+		// a Read that reports io.EOF is the end of the data, not a failure
+		p.Err = ""
+	}
 }
 
 // PartSpec describes a body part or alternative.
@@ -191,10 +241,97 @@ func producerFunc(content []byte, p Producer, calls *int, armed *bool) func(io.W
 			pos += n
 		}
 		if failing {
-			return written, ErrInjected
+			return written, p.err()
 		}
 		return written, nil
 	}
+}
+
+// faultyRS is the caller's io.ReadSeeker behind AttachReadSeeker/EmbedReadSeeker: the library's own
+// producer closure reads it on every render. A pass ("invocation") starts with the first Read after
+// creation or after a rewind. In a failing pass Read reports ErrInjected ONCE when the position
+// reaches FailAfter (a transient fault) and works again afterwards; Chunks bound the Read sizes.
+type faultyRS struct {
+	data    []byte
+	pos     int
+	p       Producer
+	calls   *int
+	armed   *bool
+	inPass  bool
+	failing bool
+	fired   bool
+	broken  bool // a rewind has failed: this source cannot seek any more
+	ci      int
+}
+
+func (r *faultyRS) Read(b []byte) (int, error) {
+	if !r.inPass {
+		r.inPass = true
+		r.fired = false
+		*r.calls++
+		r.failing = r.p.Fail && (r.p.FailOnCall == 0 || r.p.FailOnCall == *r.calls)
+		if r.p.WhenArmed {
+			r.failing = r.p.Fail && *r.armed
+		}
+	}
+	limit := len(r.data)
+	if r.failing && !r.fired && !r.p.AtSeek {
+		if r.pos >= r.p.FailAfter {
+			r.fired = true
+			return 0, r.p.err()
+		}
+		if r.p.FailAfter < limit {
+			limit = r.p.FailAfter
+		}
+	}
+	if r.pos >= len(r.data) {
+		return 0, io.EOF
+	}
+	n := limit - r.pos
+	if n > len(b) {
+		n = len(b)
+	}
+	if len(r.p.Chunks) > 0 {
+		c := r.p.Chunks[r.ci%len(r.p.Chunks)]
+		r.ci++
+		if c < 1 {
+			c = 1
+		}
+		if c < n {
+			n = c
+		}
+	}
+	copy(b, r.data[r.pos:r.pos+n])
+	r.pos += n
+	return n, nil
+}
+
+func (r *faultyRS) Seek(offset int64, whence int) (int64, error) {
+	if r.broken || (r.failing && r.p.AtSeek) {
+		r.broken = true
+		r.inPass = false
+		return int64(r.pos), r.p.err()
+	}
+	var np int64
+	switch whence {
+	case io.SeekStart:
+		np = offset
+	case io.SeekCurrent:
+		np = int64(r.pos) + offset
+	case io.SeekEnd:
+		np = int64(len(r.data)) + offset
+	}
+	if np < 0 {
+		return int64(r.pos), errors.New("verif: negative position")
+	}
+	r.pos = int(np)
+	if r.pos > len(r.data) {
+		r.pos = len(r.data)
+	}
+	if np == 0 {
+		r.inPass = false
+	}
+	return np, nil
 }
 
 func plainProducer(p Producer) bool { return !p.Fail && len(p.Chunks) == 0 }
@@ -353,7 +490,7 @@ func Build(spec *MsgSpec, env *Env) (*Built, error) {
 		calls := new(int)
 		b.Calls = append(b.Calls, calls)
 		src := f.Source
-		if !plainProducer(f.Prod) {
+		if !plainProducer(f.Prod) && src != "readseeker" {
 			src = "writer"
 		}
 		var err error
@@ -367,10 +504,16 @@ func Build(spec *MsgSpec, env *Env) (*Built, error) {
 				err = m.AttachReader(f.Name, bytes.NewReader(nil), fopts...)
 			}
 		case "readseeker":
+			var rs io.ReadSeeker = bytes.NewReader(f.Content)
+			if !plainProducer(f.Prod) {
+				// the library's own read-seeker producer over a source of the caller's that reads in
+				// chunks and/or fails transiently
+				rs = &faultyRS{data: f.Content, p: f.Prod, calls: calls, armed: b.Armed}
+			}
 			if embed {
-				m.EmbedReadSeeker(f.Name, bytes.NewReader(f.Content), fopts...)
+				m.EmbedReadSeeker(f.Name, rs, fopts...)
 			} else {
-				m.AttachReadSeeker(f.Name, bytes.NewReader(f.Content), fopts...)
+				m.AttachReadSeeker(f.Name, rs, fopts...)
 			}
 		case "file":
 			env.seq++
